@@ -61,10 +61,17 @@ fn judge<T: Tier, M: MatN<T, N> + InvT<T>, const N: usize>(ctx: &mut Ctx, e: [[T
     } else {
         // self-consistency of the two API results (a differently rounded but correct algorithm
         // may legitimately see 1e-17 instead of 0); the exact dichotomy is tier X's job
+        // None exactly when the determinant is zero - as far as floating point can tell: a determinant whose enclosure
+        // excludes zero must give Some, one that is zero over the rationals (all products exact: small dyadic entries)
+        // may round either way in either routine, and None is only acceptable when the enclosure contains zero
         ctx.branch(if inv.is_none() { "singular" } else { "invertible" });
-        ctx.check(inv.is_none() == (det == T::zero()), &key("invert/none-iff-det-zero"), || {
-            format!("determinant()={:?} but invert() is {}", det, if inv.is_some() { "Some" } else { "None" })
-        });
+        let noise = T::tol(mdet, 1.0);
+        if mdet.approx().abs() > noise {
+            ctx.check(inv.is_some(), &key("invert/none-iff-det-zero"), || format!("determinant = {:?} (+-{noise:e}) is not zero but invert() is None", mdet.approx()));
+        } else if inv.is_none() {
+            ctx.branch("none-on-a-numerically-zero-determinant");
+        }
+        let _ = det;
         if let Some(n) = inv {
             // Cramer's rule over the shadow field: the running error bound carries the conditioning
             if let Some(mn) = model::minverse_adj(me) {
@@ -91,7 +98,13 @@ fn judge<T: Tier, M: MatN<T, N> + InvT<T>, const N: usize>(ctx: &mut Ctx, e: [[T
         ctx.t();
         let same = match (&it, &inv) {
             (None, None) => true,
-            (Some(x), Some(y)) => flat_m(x.arr()).iter().zip(flat_m(y.arr()).iter()).all(|(p, q)| p.key() == q.key() || p == q),
+            (Some(x), Some(y)) if T::EXACT => flat_m(x.arr()).iter().zip(flat_m(y.arr()).iter()).all(|(p, q)| p.key() == q.key() || p == q),
+            // "this same inverse": the same matrix, however it is computed (a fast path for affine matrices rounds differently)
+            (Some(x), Some(y)) => {
+                let size = flat_m(y.arr()).iter().map(|q| q.f().abs()).fold(0.0, f64::max);
+                let cond_slack = match model::minverse_adj(me) { Some(mn) => flat_m(mn).iter().map(|v| T::tol(*v, 1.0)).fold(0.0, f64::max), None => f64::INFINITY };
+                flat_m(x.arr()).iter().zip(flat_m(y.arr()).iter()).all(|(p, q)| (p.f() - q.f()).abs() <= cond_slack.max(8.0 * T::U * size) || (p.f().is_nan() && q.f().is_nan()))
+            }
             _ => false,
         };
         if !same {
@@ -402,8 +415,13 @@ fn near_singular<T: Tier, M: MatN<T, N> + InvT<T>, const N: usize>(rep: &mut Rep
             ctx.out(&(p, q, var));
             let cm = M::mk(m);
             // a*d - s*s = (1 + e) - 1 = e
-            same_slice(ctx, &key("determinant/exact-near-singular"), &[cm.determinant()], &[e]);
-            same_slice(ctx, &key("determinant/exact-near-singular"), &[cm.transpose().determinant()], &[e]);
+            // (to a rounding: an elimination with pivoting returns e(1 + e) on some of these)
+            for d in [cm.determinant(), cm.transpose().determinant()] {
+                ctx.t();
+                if !((d.f() - e.f()).abs() <= 4.0 * T::U * e.f().abs()) {
+                    ctx.fail(&key("determinant/near-singular"), || format!("determinant() = {:?}, exactly {:?}", d, e));
+                }
+            }
             let inv = cm.invert();
             ctx.check(inv.is_some(), &key("invert/some-near-singular"), || format!("invert() is None although the determinant is {:?}", e));
             if let Some(n) = inv {
@@ -432,7 +450,45 @@ fn near_singular<T: Tier, M: MatN<T, N> + InvT<T>, const N: usize>(rep: &mut Rep
     );
 }
 
+/// scaling by a power of two is exact: det(2^k M) = 2^(kn) det(M) and invert(2^k M) = 2^-k invert(M), bit for bit, for
+/// every algorithm built from + - * / and comparisons of like quantities. An absolute threshold anywhere (a cut-off on
+/// the determinant, an `is_diagonal()` / `is_zero()` fast path) breaks it at one end of the ladder or the other
+fn scaling<T: Tier, M: MatN<T, N> + InvT<T>, const N: usize>(rep: &mut Report) {
+    // (exponents such that nothing leaves the range - 8.5 - and the exact tier's integers stay within i128)
+    let ks: Vec<i32> = if T::EXACT { vec![-6, 6] } else if T::NAME == "F" { vec![-20, -12, 12, 20] } else { vec![-60, -25, -12, 12, 25, 60] };
+    let bs: Vec<(&'static str, Vec<R>)> = bases::<N>().into_iter().filter(|b| !b.0.starts_with("tiny")).collect();
+    rep.cases(
+        &format!("scaling/{}", M::NAME),
+        T::NAME,
+        &format!("{} bases x powers of two 2^k, k in {:?}", bs.len(), ks),
+        bs.len() * ks.len(),
+        Guard::states(6).distinct(6),
+        |i, ctx| {
+            let (bi, k) = (i / ks.len(), ks[i % ks.len()]);
+            let e: [[T; N]; N] = mat_from_r(&bs[bi].1);
+            let f: T = if k >= 0 { T::q(1i64 << k, 1) } else { T::q(1, 1i64 << -k) };
+            let es: [[T; N]; N] = e.map(|c| c.map(|x| x * f));
+            ctx.describe(|| format!("{} base={} scaled by 2^{k}: {:?}", M::NAME, bs[bi].0, es));
+            ctx.out(&(bi, k));
+            let (a, b) = (M::mk(e), M::mk(es));
+            let mut fd = T::one();
+            for _ in 0..N {
+                fd = fd * f;
+            }
+            same_slice(ctx, &key("determinant/scales-exactly"), &[b.determinant()], &[a.determinant() * fd]);
+            match (a.invert(), b.invert()) {
+                (Some(x), Some(y)) => { same_slice(ctx, &key("invert/scales-exactly"), &flat_m(y.arr()), &flat_m(x.arr().map(|c| c.map(|v| v / f)))); }
+                (None, None) => {}
+                (x, y) => ctx.fail(&key("invert/scales-exactly"), || format!("invert() is {} but {} after scaling by 2^{k}", if x.is_some() { "Some" } else { "None" }, if y.is_some() { "Some" } else { "None" })),
+            }
+        },
+    );
+}
+
 fn all<T: Tier>(rep: &mut Report) {
+    scaling::<T, Matrix2<T>, 2>(rep);
+    scaling::<T, Matrix3<T>, 3>(rep);
+    scaling::<T, Matrix4<T>, 4>(rep);
     near_singular::<T, Matrix2<T>, 2>(rep);
     near_singular::<T, Matrix3<T>, 3>(rep);
     near_singular::<T, Matrix4<T>, 4>(rep);
